@@ -7,7 +7,7 @@ import sqlgen as G
 from sqlgen import INT, STR, BOOL
 
 DATA = [
-    {"t1": [[1, 1, "a"], [2, 2, "b"], [2, None, "ab"], [3, 0, None], [None, 1, ""]],
+    {"t1": [[1, 1, "a"], [2, 2, "b"], [2, None, "ab"], [3, 0, None], [None, 1, ""], [None, 2, "a"], [None, 1, "b"]],
      "t2": [[1, 5, "a"], [2, 0, None], [4, 1, "b"], [None, 2, "a"]],
      "t3": [[1, 1], [2, 3], [2, None], [5, 0]]},
     {"t1": [[0, 0, ""], [1, None, "a"], [1, 3, "a"], [4, 2, "b"]],
@@ -111,6 +111,17 @@ def family():
     frm5 = ("join", "left", t("t1", "x1"), ("sub", rsub, "x2", [("d1", INT), ("d2", INT)]), B("=", C("x1", "a"), C("x2", "d1")))
     for p in [ISN(C("x2", "d1")), ISN(C("x2", "d2"), True), OR(B(">", C("x2", "d2"), K(1)), ISN(C("x2", "d2")))]:
         qs.append(dict(BASE, sel=[(C("x1", "a"), "c1"), (C("x2", "d2"), "c2")], frm=frm5, where=p))
+    # 5b. aggregation / DISTINCT / ORDER BY over a derived table that is itself ordered (sort aggregation,
+    # useless-order): NULL keys, duplicates, a prefix of the keys
+    for ords in ([(0, "asc")], [(0, "asc"), (1, "asc")], [(0, "desc")]):
+        osub = dict(BASE, sel=[(C("y", "a"), "d1"), (C("y", "b"), "d2")], frm=t("t1", "y"), ord=ords)
+        ofrm = ("sub", osub, "x", [("d1", INT), ("d2", INT)])
+        qs.append(dict(BASE, sel=[(C("x", "d1"), "c1"), (("agg", "count*"), "c2"), (("agg", "sum", C("x", "d2"), INT), "c3")], frm=ofrm,
+                       grp=[C("x", "d1")], agg=True))
+        qs.append(dict(BASE, sel=[(C("x", "d1"), "c1"), (C("x", "d2"), "c2"), (("agg", "count*"), "c3")], frm=ofrm,
+                       grp=[C("x", "d1"), C("x", "d2")], agg=True))
+        qs.append(dict(BASE, sel=[(C("x", "d1"), "c1")], frm=ofrm, dist=True))
+        qs.append(dict(BASE, sel=[(C("x", "d1"), "c1"), (C("x", "d2"), "c2")], frm=ofrm, ord=[(0, "asc"), (1, "desc")]))
     # 6. ORDER BY + LIMIT over joins
     for frm in (("join", "left", t("t1", "x1"), t("t2", "x2"), on1), ("join", "inner", t("t1", "x1"), t("t2", "x2"), on1)):
         for lim, off in ((2, 0), (3, 1), (10, 2)):
